@@ -340,4 +340,65 @@ theorem resumeCore_finalized_any_tail (api : Api) (o : WOpts) (roots : Option (L
       < 51 + o.dataPad + (encodeHeader ⟨roots, 1⟩ ++ sectionsBytes log).length) := by omega
   simp only [and_false, ↓reduceIte, true_and, c4]
 
+/-- the low `k` bytes of a little-endian field overwritten by zeros: the field of the value rounded down -/
+theorem leN_low_zeroed (m : Nat) : ∀ (k n : Nat), k ≤ m →
+    zeros k ++ (leN m n).drop k = leN m (n - n % 256 ^ k) := by
+  induction m with
+  | zero => intro k n hk; have : k = 0 := by omega
+            subst this; simp [leN, zeros]
+  | succ m ih =>
+    intro k n hk
+    cases k with
+    | zero => simp [zeros, Nat.mod_one]
+    | succ k =>
+      have h1 : (n - n % 256 ^ (k + 1)) % 256 = 0 := by
+        have : n - n % 256 ^ (k + 1) = 256 ^ (k + 1) * (n / 256 ^ (k + 1)) := by
+          have := Nat.div_add_mod n (256 ^ (k + 1)); omega
+        rw [this, Nat.pow_succ, Nat.mul_comm (256 ^ k) 256, Nat.mul_assoc]; exact Nat.mul_mod_right _ _
+      have h2 : (n - n % 256 ^ (k + 1)) / 256 = n / 256 - (n / 256) % 256 ^ k := by
+        have e1 : n % 256 ^ (k + 1) = n % 256 + 256 * (n / 256 % 256 ^ k) := by
+          rw [Nat.pow_succ, Nat.mul_comm]; exact Nat.mod_mul
+        have e2 := Nat.div_add_mod n 256
+        have e3 : n / 256 % 256 ^ k ≤ n / 256 := Nat.mod_le _ _
+        rw [e1]
+        have : n - (n % 256 + 256 * (n / 256 % 256 ^ k)) = 256 * (n / 256 - n / 256 % 256 ^ k) := by
+          rw [Nat.mul_sub]; omega
+        rw [this, Nat.mul_div_cancel_left _ (by decide : 0 < 256)]
+      simp only [leN, List.drop_succ_cons, h1, h2]
+      rw [← ih k (n / 256) (by omega)]
+      simp [zeros, List.replicate_succ]
+
+theorem readV2Header_bytes_small_offset (h : V2Header) (hhi : h.charHi < 2 ^ 64) (hlo : h.charLo < 2 ^ 64)
+    (hd : h.dataOffset < 51) (hs2 : h.dataSize < 2 ^ 64) (hio : h.indexOffset < 2 ^ 64) (rest : Bytes) :
+    readV2Header (h.bytes ++ rest) = .error .badHeader := by
+  unfold readV2Header
+  have hlen : (h.bytes ++ rest).length = 40 + rest.length := by simp [V2Header.bytes_length]
+  have c1 : ¬ ((h.bytes ++ rest).length < 16) := by omega
+  have c2 : ¬ ((h.bytes ++ rest).length < 40) := by omega
+  simp only [c1, c2, ↓reduceIte]
+  have p64 : (2:Nat) ^ 63 < 2 ^ 64 := by decide
+  have e : h.bytes ++ rest = le64 h.charHi ++ (le64 h.charLo ++ (le64 h.dataOffset ++ (le64 h.dataSize ++ (le64 h.indexOffset ++ rest)))) := by
+    simp [V2Header.bytes]
+  have t0 : (h.bytes ++ rest).take 8 = le64 h.charHi := by rw [e]; exact List.take_left' (le64_length _)
+  have d8 : (h.bytes ++ rest).drop 8 = le64 h.charLo ++ (le64 h.dataOffset ++ (le64 h.dataSize ++ (le64 h.indexOffset ++ rest))) := by
+    rw [e]; exact List.drop_left' (le64_length _)
+  have d16 : (h.bytes ++ rest).drop 16 = le64 h.dataOffset ++ (le64 h.dataSize ++ (le64 h.indexOffset ++ rest)) := by
+    rw [show 16 = 8 + 8 by rfl, ← List.drop_drop, d8]; exact List.drop_left' (le64_length _)
+  have d24 : (h.bytes ++ rest).drop 24 = le64 h.dataSize ++ (le64 h.indexOffset ++ rest) := by
+    rw [show 24 = 16 + 8 by rfl, ← List.drop_drop, d16]; exact List.drop_left' (le64_length _)
+  have d32 : (h.bytes ++ rest).drop 32 = le64 h.indexOffset ++ rest := by
+    rw [show 32 = 24 + 8 by rfl, ← List.drop_drop, d24]; exact List.drop_left' (le64_length _)
+  have d40 : (h.bytes ++ rest).drop 40 = rest := by
+    rw [show 40 = 32 + 8 by rfl, ← List.drop_drop, d32]; exact List.drop_left' (le64_length _)
+  rw [t0, d8, d16, d24, d32, d40]
+  rw [List.take_left' (le64_length _), List.take_left' (le64_length _), List.take_left' (le64_length _),
+      List.take_left' (le64_length _)]
+  have p64 : (51:Nat) < 2 ^ 64 := by decide
+  rw [leVal_le64 _ hhi, leVal_le64 _ hlo, leVal_le64 _ (by omega), leVal_le64 _ hs2, leVal_le64 _ hio]
+  have k1 : (int64Neg h.dataOffset = true ∨ h.dataOffset < pragmaSize + v2HeaderSize) := by
+    right; simp [pragmaSize, v2HeaderSize]; omega
+  simp only [k1, ↓reduceIte]
+
+theorem le64_low_zeroed (k n : Nat) (hk : k ≤ 8) : zeros k ++ (le64 n).drop k = le64 (n - n % 256 ^ k) :=
+  leN_low_zeroed 8 k n hk
 end Car
